@@ -229,10 +229,16 @@ def check_case(case: dict) -> Result:
 
 
 @st.composite
-def configs(draw, n_min: int, n_max: int, lib_only=None):
+def configs(draw, n_min: int, n_max: int, lib_only=None, sam_only: bool = False):
     from .. import libgames
     n = draw(st.integers(n_min, n_max))
     src = draw(st.sampled_from(["harness-sa", "harness-sam", "lib", "lib"])) if lib_only is None else "lib"
+    if sam_only:
+        # monotone families with the approximate SAM computers: there a reveal of an already pinned coalition still tightens
+        # its supersets, so every step must really recompute
+        src = draw(st.sampled_from(["harness-sam", "lib"]))
+        if src == "lib":
+            lib_only = draw(st.sampled_from(["k_budget_generator", "covg_fn_generator", "xos", "xos3", "xs", "xs3", "oxs"]))
     k = draw(st.integers(1, 3))
     if src == "harness-sa":
         games = []
@@ -245,13 +251,13 @@ def configs(draw, n_min: int, n_max: int, lib_only=None):
         for _ in range(k):
             g = draw(sam_games(n, n))
             games.append({"kind": "table", "n": n, "v": g["v"], "how": "harness-" + g["how"]})
-        comp = draw(st.sampled_from(["sam_apx_1", "sam_apx_10", "superadditive_cached"]))
+        comp = draw(st.sampled_from(["sam_apx_1", "sam_apx_10", "superadditive_cached"] if not sam_only else ["sam_apx_1", "sam_apx_10"]))
     else:
         name = lib_only or draw(st.sampled_from(libgames.names()))
         seed = draw(st.integers(0, 2**31))
         games = [libgames.lib_spec(name, n, seed + j) for j in range(k)]
         if name in libgames.SAM_FAMILIES:
-            comp = draw(st.sampled_from(["sam_apx_1", "sam_apx_10", "superadditive_cached", "superadditive"]))
+            comp = draw(st.sampled_from(["sam_apx_1", "sam_apx_10", "superadditive_cached", "superadditive"] if not sam_only else ["sam_apx_1", "sam_apx_10"]))
         else:
             comp = draw(st.sampled_from(["superadditive", "superadditive_cached"]))
     nexp = (1 << n) - n - 2
@@ -264,7 +270,7 @@ def configs(draw, n_min: int, n_max: int, lib_only=None):
             "budget": draw(st.sampled_from([None, None, 1, 2, 4])), "extra_known": sorted(extra)}
 
 
-def make_machine(n_min: int, n_max: int):
+def make_machine(n_min: int, n_max: int, sam_only: bool = False):
     class Machine(RuleBasedStateMachine):
         ctx: Ctx = None  # type: ignore[assignment]
 
@@ -273,7 +279,7 @@ def make_machine(n_min: int, n_max: int):
             self.sim = None
             self.case = None
 
-        @initialize(cfg=configs(n_min, n_max))
+        @initialize(cfg=configs(n_min, n_max, sam_only=sam_only))
         def init(self, cfg):
             self.case = {"cfg": cfg, "ops": []}
             self.sim = Sim(cfg)
@@ -287,6 +293,21 @@ def make_machine(n_min: int, n_max: int):
         def step(self, i):
             v = self.sim.valid_steps()
             self._do(["step", v[i % len(v)]])
+
+        @precondition(lambda self: self.sim is not None and len(self.sim.valid_steps()) > 0)
+        @rule(picks=st.lists(st.integers(0, 2**20), min_size=2, max_size=6))
+        def several_steps(self, picks):
+            # long forward runs (episodes as the solvers play them); every single step is checked
+            for i in picks:
+                v = self.sim.valid_steps()
+                if not v:
+                    break
+                self._do(["step", v[i % len(v)]])
+                res = Result()
+                self.sim.check(res, f"after op {len(self.case['ops']) - 1}")
+                if res.failures:
+                    self.sim.classify(res)
+                    self.ctx.judge(self.case, res, _sample(self.case))
 
         @precondition(lambda self: self.sim is not None and self.sim.valid_unsteps())
         @rule(i=st.integers(0, 2**20))
@@ -328,15 +349,17 @@ def _sample(case):
 def plan(tier: str) -> list[dict]:
     if tier == "quick":
         return ([{"mode": "machine", "n_min": 3, "n_max": 5, "examples": 150, "steps": 18, "cost": 4} for _ in range(5)]
+                + [{"mode": "machine", "n_min": 5, "n_max": 5, "sam_only": True, "examples": 60, "steps": 25, "cost": 5}]
                 + [{"mode": "exh3", "examples": 40, "cost": 3}])
     return ([{"mode": "machine", "n_min": 3, "n_max": 5, "examples": 300, "steps": 25, "cost": 10} for _ in range(11)]
+            + [{"mode": "machine", "n_min": 4, "n_max": 5, "sam_only": True, "examples": 250, "steps": 30, "cost": 10} for _ in range(2)]
             + [{"mode": "exh3", "examples": 150, "cost": 8} for _ in range(2)]
             + [{"mode": "families", "cost": 10, "part": p, "parts": 3} for p in range(3)])
 
 
 def run_shard(spec: dict, ctx: Ctx) -> None:
     if spec["mode"] == "machine":
-        ctx.run_machine(make_machine(spec["n_min"], spec["n_max"]), spec["examples"], spec["steps"])
+        ctx.run_machine(make_machine(spec["n_min"], spec["n_max"], spec.get("sam_only", False)), spec["examples"], spec["steps"])
     elif spec["mode"] == "exh3":
         strat = configs(3, 3).map(lambda cfg: {"cfg": cfg, "exhaustive": True, "ops": []})
         ctx.run_given(strat, check_case, spec["examples"], sample_of=_sample)
